@@ -14,6 +14,8 @@ structure St where
   s : State := {}
   modes : List String := []
   kf : String := ""
+  /-- table files whose deletion was attributed to a known finding, with its id -/
+  lostKf : List (String × String) := []
   /-- a `NeedsTable` call held between its two reads: instance and table -/
   ask : Option (Nat × Path) := none
 
@@ -119,7 +121,9 @@ def collectOne (st : St) (need : List File) (acc : GcAcc) (i : Nat) (u : Path) (
       let bad :=
         if deleted && need.contains (.sst u) then
           let kf :=
-            if isCreated || x.life = .released then "D25"
+            -- D25 only in its situation: the instance was released inside a living process
+            if x.life = .released then "D25"
+            else if isCreated then ""
             else match x.loaded.find? (fun t => t.uri == u) with
               | some t => if inRangeHolder acc.s i t then "" else "D34"
               | none => ""
@@ -286,7 +290,8 @@ def step (st : St) (ws : List String) : St × String :=
       | _ => l
     let spec := "ok cleanups=" ++ joinC (sortStr specLines) ++ " deleted=" ++ joinC (sortStr (gone.filter (fun p => !badUris.contains p)))
     let kf := pickKf acc.bad
-    ({ st with s := acc.s, kf := if acc.bad.isEmpty then st.kf else kf }, withSpec model spec kf)
+    ({ st with s := acc.s, kf := if acc.bad.isEmpty then st.kf else kf,
+               lostKf := st.lostKf ++ acc.bad.filter (fun b => b.2 != "") }, withSpec model spec kf)
   | ["asksplit", i, sel] =>
     let i := natOr i
     if !aliveAt st i then (st, "not-alive") else
@@ -339,7 +344,15 @@ def step (st : St) (ws : List String) : St × String :=
       | none => none
     let all := (m ++ lostDocs).eraseDups
     if all.isEmpty then (st, "ok")
-    else (st, withSpec ("missing " ++ joinWith "," (sortStr all)) "ok" (if m.isEmpty then "D50" else st.kf))
+    else
+      -- a missing file carries a finding's id only if that very file was lost in the finding's situation
+      let ids := m.map fun p => match st.lostKf.find? (fun b => b.1 == p) with
+        | some b => b.2
+        | none => ""
+      let kf := if m.isEmpty then "D50"
+        else if ids.any (· == "") then ""
+        else if ids.any (· == "D25") then "D25" else ids.headD ""
+      (st, withSpec ("missing " ++ joinWith "," (sortStr all)) "ok" kf)
   | _ => (st, "bad-op")
 
 def handle (lines : Array String) (i : Nat) (out : Array String) : Nat × Array String :=
